@@ -102,6 +102,7 @@ def _reuse(ctx):
         ("run_fdtd[reversible]", "fdtdx.fdtd.wrapper.run_fdtd", dict(method="reversible", num_checkpoints_reversible=1), (), {}),
         ("checkpointed_fdtd", "fdtdx.fdtd.fdtd.checkpointed_fdtd", dict(method="checkpointed"), (), {}),
         ("custom_fdtd_forward[reset_container=True]", "fdtdx.fdtd.fdtd.custom_fdtd_forward", None, (True, True, a, b), {}),
+        ("custom_fdtd_forward[reset_container=True,record_detectors=False]", "fdtdx.fdtd.fdtd.custom_fdtd_forward", None, (True, False, a, b), {}),
     ]
     for label, fn, grad, extra, kw in runs:
         outs = []
@@ -113,7 +114,20 @@ def _reuse(ctx):
                 raise AnalysisError(f"{label} raises: {r}")
             outs.append((to_rat(r[0]).fmt(), dyn_signature(r[1])))
         base = outs[0][1]
-        zero_based = isinstance(base, tuple) and len(base) == 6 and isinstance(base[5], tuple) and base[5][0] == "zero"
+        if isinstance(base, tuple) and base and base[0] == "M":
+            # fields advanced, detector states not recorded: every detector leaf must be zero, the fields a run over the zero state
+            leaves = dict(base[1])
+            det_zero = all(v == ("const", "0") for p_, v in leaves.items() if p_[0] == "det")
+            fh = {v[2] for p_, v in leaves.items() if p_[0] == "fields" and isinstance(v, tuple) and len(v) == 3}
+            zero_based = det_zero and len(fh) == 1 and isinstance(next(iter(fh)), tuple) and next(iter(fh))[0] == "run" and next(iter(fh))[5][0] == "zero"
+        else:
+            zero_based = isinstance(base, tuple) and len(base) == 6 and isinstance(base[5], tuple) and base[5][0] == "zero"
+        if extra:
+            # a resetting partial run still covers exactly its own window
+            d_w = Driver(ctx, Facts([T - 2, a - 1, b - a, T - b]))
+            r_w = d_w.call(fn, d_w.arrays(tag="used"), _objects(), d_w.config(T), atom("key"), *extra, show_progress=False)
+            starts = [to_rat(lp.t0).fmt() for lp in d_w.loops]
+            ctx.ob("R6.3", f"{label}:window", starts == ["a"] and to_rat(r_w[0]).equals(b) and all(lp.covered for lp in d_w.loops), "resetting zeroes the state and nothing else: the run still executes the steps start .. end - 1 of its own window (start > 0 included)", dict(loop_start=starts, final_step=to_rat(r_w[0]).fmt()), dict(loop_start=["a"], final_step="b"))
         ctx.ob("R6.3", f"{label}:reused-container", outs[0] == outs[1] and zero_based, "a run started from a used container equals the run from a pristine one: both start from the all-zero dynamic state", str(outs[1])[:200], str(outs[0])[:200])
     # a chained second run from the arrays returned by the first
     d = Driver(ctx, Facts([T - 1]))
